@@ -39,6 +39,9 @@ HISTORY = {
     "C05-8": "missed at first (C05 only exercised the conversions; C06 caught the same change): every named option / content format is now also encoded through the message API and read off the wire with the reference parser",
     "C07-7": "missed at first (one specific option value): new exhaustive part with every one-byte No-Response value on all four message types, plus bare requests",
     "C07-8": "missed at first (diagnostic texts were at most 20 characters): texts now go up to 70000 bytes",
+    "C11-10": "missed in a preview run (random sequences never built a buffer whose capacity ran far ahead of its length): new directed staircases of maximal permitted jumps followed by probes beyond the limit",
+    "C14-10": "missed in a preview run (four fixed tokens): the token alphabet now has 14 tokens of every length incl. near-identical 8-byte pairs and prefixes",
+    "C20-11": "missed in a preview run (the 'next use' was always a plain GET): the next use is now one of five kinds, among them an oversized request without Block1",
     "C04-4": "NOT detected, deliberately: the change only differs for tokens of 256..271 bytes or a TKL set directly after set_token, both outside the property's domain (token of 0-8 bytes); the demo uses a 256-byte token",
     "C04-5": "quick tier misses it by construction (the changed line only exists with the `udp` feature); the thorough tier builds the `udp` configuration and catches it",
 }
